@@ -25,7 +25,7 @@ def _bound(ctx, call, func, clsname):
     return q.bind_args(ctx, call, func, init) or {}
 
 
-@rule('C10.a', ['C10', 'C11'], floor=12)
+@rule('C10.a', ['C10', 'C11', 'C16'], floor=12)
 def wiring_table(ctx):
     """Each limit is fed by its own TransferConfig field: request executor <-
     (max_request_queue_size, max_request_concurrency), submission executor <-
